@@ -129,6 +129,10 @@ def prepare(prop, tier, extra_targets=(), modules=None):
         for u in rep.get('untranslatable', []):
             res['untranslatable'].append(u)
             res['problems'].append({'kind': 'untranslatable', 'detail': u})
+        if rep.get('untranslatable') and os.environ.get('VERIF_STRICT_TRANSLATOR') == '1':
+            # optional strict policy (DESIGN §7, §11.4 round 5): an anchored function whose shape the translator no longer recognises is a
+            # broken tie (-> failing-input search, else `no-failing-input-found`).  Default: the golden text takes over quietly.
+            res['ok'] = False
         if rep.get('untranslatable'):
             # the golden model takes over as a hand model for the files that could not be regenerated
             have = set(rep.get('files', {}))
